@@ -403,17 +403,34 @@ def clean_replays(ctx):
             f.unlink()
 
 
+def short_tail(r, n=25):
+    """TLC output tail without the exported PROG / PRED / CFG / SIM lines"""
+    lines = [ln for ln in r.tail(400).splitlines() if not ln.lstrip().startswith(('<<"PROG"', '<<"PRED"', '<<"CFG"', '<<"SIM"', '<<"TABLES"', '<<"DISC"'))]
+    return "\n".join(ln[:300] for ln in lines[-n:])
+
+
+def _try(fn):
+    try:
+        fn()
+    except Exception:      # the caller's own ctx.mockery() call reports the build failure
+        pass
+
+
 def load_space(ctx, tier, programs_cfg=None, need_cfgs=True):
     clean_replays(ctx)
     sp = Space()
     cfg = programs_cfg or ("Codegen_thorough.cfg" if tier == "thorough" else "Codegen_quick.cfg")
+    # the binary is built while TLC runs (both are needed by every caller)
+    builder = threading.Thread(target=lambda: _try(ctx.mockery))
+    builder.start()
     r = ctx.tlc("CodegenMC", cfg, workers=1, timeout=3000 if tier == "thorough" else 600, coverage=(tier == "thorough"))
+    builder.join()
     if r.violated:
         # the code-shaped model breaks a footprint invariant: a prediction only, but nothing was exported after it
         raise MachineryError("Codegen.tla: %s violated at model level -- the code-shaped model needs a named deviation:\n%s"
-                             % (r.violated, r.tail(25)))
+                             % (r.violated, short_tail(r)))
     if not r.ok:
-        raise MachineryError("TLC failed on CodegenMC/%s:\n%s" % (cfg, r.tail(30)))
+        raise MachineryError("TLC failed on CodegenMC/%s:\n%s" % (cfg, short_tail(r, 30)))
     for x in r.prints("PROG"):
         pid = x["prog"]["pid"]
         if pid in sp.progs and sp.progs[pid]["prog"] != x["prog"]:
@@ -509,7 +526,7 @@ def add_simulated(ctx, sp, n, nmethods=4, maxdepth=3):
     r2 = ctx.tlc("CodegenSimMC", "Codegen_simmc.cfg", workers=1, timeout=1800,
                  files={"CodegenSimMC.tla": mod, "cfg/Codegen_simmc.cfg": mccfg})
     if not r2.ok:
-        raise MachineryError("TLC failed on the simulated programs (%s):\n%s" % (r2.violated, r2.tail(25)))
+        raise MachineryError("TLC failed on the simulated programs (%s):\n%s" % (r2.violated, short_tail(r2)))
     n0 = len(sp.progs)
     for x in r2.prints("PROG"):
         if not x["wellformed"]:
